@@ -76,6 +76,10 @@ package godi
 //@   at before call s.childrenMu.Unlock#1 : ghost kids := children
 //@   ensures[C12] loser_is_noop: !won ==> result == nil && ncalls("Disposable.Close") == 0 && ncalls("scope.Close") == 0 && ncalls("field:scope.cancel") == 0
 //@   ensures[C12,C13] closed_flag_set: won ==> callret("atomic.CAS:disposed", 0, 0)
+//@   ensures[C10,C13,C14] winner_runs_every_step: won ==> ncalls("scope.disposablesMu.Lock") == 1 && ncalls("scope.instancesMu.Lock") == 1
+//@        && ncalls("scope.childrenMu.Lock") == 1 + ite(s.parentScope != nil, 1, 0) && ncalls("provider.scopesMu.Lock") == ite(s.rootProvider != nil, 1, 0)
+//@        && callarg("scope.disposablesMu.Lock", 0, 0) == s && callarg("scope.instancesMu.Lock", 0, 0) == s && callarg("scope.childrenMu.Lock", 0, 0) == s
+//@        && (s.parentScope != nil ==> callarg("scope.childrenMu.Lock", 1, 0) == s.parentScope) && (s.rootProvider != nil ==> callarg("provider.scopesMu.Lock", 0, 0) == s.rootProvider)
 //@   ensures[C14] cancel_called: won && s.cancel != nil ==> ncalls("field:scope.cancel") == 1 && callarg("field:scope.cancel", 0, 0) == s.cancel
 //@   ensures[C13,C10] cascade: won ==> ncalls("scope.Close") == len(kids) && (forall i int :: 0 <= i && i < len(kids) ==> callarg("scope.Close", i, 0) == kids[i])
 //@   ensures[C10,C12] every_disposable_closed_once: won ==> ncalls("Disposable.Close") == len(snap)
@@ -168,6 +172,8 @@ package godi
 //@   at before call p.scopesMu.Unlock#1 : ghost open := scopes
 //@   at before if#4 : ghost root := p.rootScope
 //@   ensures[C12] loser_is_noop: !won ==> result == nil && ncalls("Disposable.Close") == 0 && ncalls("scope.Close") == 0
+//@   ensures[C10,C13,C14] winner_runs_every_step: won ==> ncalls("provider.scopesMu.Lock") == 1 && ncalls("provider.disposablesMu.Lock") == 1 && ncalls("provider.singletonKeysMu.Lock") == 1
+//@        && callarg("provider.scopesMu.Lock", 0, 0) == p && callarg("provider.disposablesMu.Lock", 0, 0) == p
 //@   ensures[C13,C10] every_scope_closed: won ==> ncalls("scope.Close") == len(open) + ite(root != nil, 1, 0)
 //@        && (forall i int :: 0 <= i && i < len(open) ==> callarg("scope.Close", i, 0) == open[i])
 //@   ensures[C10,C13] root_scope_closed: won && root != nil ==> callarg("scope.Close", len(open), 0) == root
